@@ -190,3 +190,19 @@ PROPS['C06'] = dict(
     modelled='sync.Mutex / sync.Cond / go as the labelled transition system of Conc.v',
     assumptions=['counters are read after the producer goroutine has been idle for ~0.5 ms'],
 )
+
+PROPS['C15'] = dict(
+    theorem='C15_first_n_stable, C15_find_first_stable, C15_finite_terminates, C15_consulted (Properties/C15.v)',
+    functional=True,
+    level_text='Theorems: the first n matches of a text are those of any prefix that already contains them (extending the text cannot change them), so a search that returns at the '
+               'n-th match needs no digit beyond its end; every search on a finite text returns; digits consulted <= largest waited index + B in every schedule. The statement is '
+               'evaluated on the implementation with counted infinite sources (pattern planted at block boundaries and far out in a match-free stream): answers against the '
+               'specification, source calls <= max(start, end of last reported match) + 1 + 1000 (+1 prefetch), v3 n <= 0 consults nothing, every call within a time budget.',
+    level_note='That each entry point stops pulling after the n-th match (consume2.FromIntGenerator/PSlice, itertools.Take, range-over-func break) is checked on the implementation by the '
+               'counters and the time budget, not proved from a model of those libraries.',
+    rule='cases: generator-backed infinite Numbers whose digits 1-5 never match, with a 1-5 digit pattern of 7-9s planted 1-3 times at {0,1,50,98..102,199..201,650,1200,2300,5150}+; '
+         'FindFirst, FindFirstN, Find pulls, Matches with early exit and re-run, n in {-1..3} capped by the visible plants, optional WithStart before/inside/after a plant; plus the C09 '
+         'generator on generator-backed finite windows. Non-trivial as C09.',
+    modelled='consume2, itertools.Take, range-over-func',
+    assumptions=['each implementation call runs under a 4 s wall-clock budget; exceeding it is reported as a failure to return'],
+)
